@@ -263,6 +263,47 @@ def exec_for_gen_contract(I, st, node, gfi, gargs, gc, filt=None):
     I.exec_block(st, node.orelse)
 
 
+def list_of_gen(I, st, node, payload):
+    """list(<generator call>): the generator runs to exhaustion, every yielded value is appended.  The generator's loop is
+    cut at the sidecar invariant registered under the key "list(<generator name>)"; the list under construction is
+    visible to that invariant as RESULT."""
+    gfi, gargs = payload
+    consumer = st.frame
+    c = I.active_contract(consumer.func)
+    key = "list(%s)" % gfi.name
+    if c is None or key not in c.loops:
+        raise Unsupported("list(%s(...)) in %s has no invariant in the sidecar (loops key %r)" % (gfi.name, consumer.func.qualname, key))
+    ls = c.loops[key]
+    ety = None
+    ann = gfi.node.returns
+    if isinstance(ann, ast.Subscript) and ast.unparse(ann.value).split(".")[-1] in ("Generator", "Iterator", "Iterable"):
+        a0 = ann.slice.elts[0] if isinstance(ann.slice, ast.Tuple) else ann.slice
+        ety = calls.annotation_type(I, st, a0, gfi.module)
+    if ety in (None, "Any"):
+        raise Unsupported("list(%s(...)): the generator's element type is not annotated" % gfi.name)
+    cls = "List[%s]" % ty_str(ety)
+    REG.parse(cls)
+    o = I.new_list(st, cls)
+    consumer.vars["RESULT"] = o
+    I.inlined.add(gfi.qualname)
+    kd = REG.get(cls)
+
+    def on_yield(v):
+        def body():
+            ln, items = I.list_len(st, o), I.list_items(st, o)
+            I.set_list(st, o, ln + 1, z3.Store(items, ln, I.coerce(st, v, kd.V).term))
+        _run_in_frame(I, st, consumer, body)
+        return NONE
+    saved = getattr(st, "gen_loop_override", None)
+    st.gen_loop_override = (gfi.qualname, consumer, key, ls, node)
+    try:
+        run_generator(I, st, gfi, gargs, on_yield)
+    finally:
+        st.gen_loop_override = saved
+        consumer.vars.pop("RESULT", None)
+    return o
+
+
 def specs_clause(cl):
     from .contracts import Clause
     if isinstance(cl, Clause):
